@@ -234,6 +234,58 @@ class Scope:
             split(t, pol)
         return out
 
+    def path_guards(self, node):
+        """guard_conjuncts(node) plus the conditions implied by earlier statements of the enclosing blocks that always
+        leave the block (`if c: return` before node contributes (c, False)); independent of whether a guard is
+        written as nesting or as an early exit."""
+        def exits(stmts):
+            for s in stmts:
+                if isinstance(s, (ast.Return, ast.Raise, ast.Continue, ast.Break)):
+                    return True
+                if isinstance(s, ast.If) and s.orelse and exits(s.body) and exits(s.orelse):
+                    return True
+            return False
+        raw = []
+        for (blk, st) in reversed(self.block_chain(node)):
+            owner, field = blk
+            # explicit guard contributed by the owner of this block
+            if isinstance(owner, ast.If):
+                raw.append((owner.test, field == "body"))
+            elif isinstance(owner, ast.While) and field == "body":
+                raw.append((owner.test, True))
+            stmts = getattr(owner, field)
+            for prev in stmts[:stmts.index(st)]:
+                if isinstance(prev, ast.If):
+                    if exits(prev.body) and not (prev.orelse and exits(prev.orelse)):
+                        raw.append((prev.test, False))
+                    elif prev.orelse and exits(prev.orelse) and not exits(prev.body):
+                        raw.append((prev.test, True))
+        # conditional expressions between the statement and the node
+        st = self.stmt_of(node)
+        child, p = node, self.parent.get(node)
+        inner = []
+        while p is not None and child is not st:
+            if isinstance(p, ast.IfExp):
+                if child is p.body:
+                    inner.append((p.test, True))
+                elif child is p.orelse:
+                    inner.append((p.test, False))
+            child, p = p, self.parent.get(p)
+        raw.extend(reversed(inner))
+        out = []
+
+        def split(t, pol):
+            if isinstance(t, ast.BoolOp) and ((isinstance(t.op, ast.And) and pol) or (isinstance(t.op, ast.Or) and not pol)):
+                for v in t.values:
+                    split(v, pol)
+            elif isinstance(t, ast.UnaryOp) and isinstance(t.op, ast.Not):
+                split(t.operand, not pol)
+            else:
+                out.append((t, pol))
+        for t, pol in raw:
+            split(t, pol)
+        return out
+
     # -- reaching definitions -------------------------------------------------
     def reaching(self, name, use):
         """The unique assignment expression that `name` denotes at `use`, or None when
@@ -298,6 +350,62 @@ class Scope:
             return None
         return best.value
 
+    def list_value(self, name, use):
+        """For a local list built as `L = <expr>` followed by straight-line `L.append(x)` / `L.extend(E)` /
+        `L += E` statements in the same block before `use`: the equivalent expression `<expr> + [x] + E`.
+        None when the construction is anything else (mutation in a nested block, several definitions, ...)."""
+        ds = [d for d in self.defs.get(name, []) if d.kind != "comp"]
+        if len([d for d in ds if d.kind == "assign"]) != 1 or any(d.kind not in ("assign", "aug") for d in ds):
+            return None
+        d0 = [d for d in ds if d.kind == "assign"][0]
+        uo = self.order.get(use)
+        if uo is None or d0.block is None or d0.order >= uo:
+            return None
+        anc = None
+        for (blk, st) in self.block_chain(use):
+            if blk[0] is d0.block[0] and blk[1] == d0.block[1]:
+                anc = st
+        if anc is None or isinstance(d0.stmt, ast.Assign) and len(d0.stmt.targets) != 1:
+            return None
+        stmts = getattr(d0.block[0], d0.block[1])
+        i0, i1 = stmts.index(d0.stmt), stmts.index(anc)
+        if i0 >= i1:
+            return None
+        value = d0.value
+        allowed = set()
+        for st in stmts[i0 + 1:i1]:
+            add = None
+            if isinstance(st, ast.Expr) and isinstance(st.value, ast.Call) and isinstance(st.value.func, ast.Attribute) \
+                    and isinstance(st.value.func.value, ast.Name) and st.value.func.value.id == name and len(st.value.args) == 1 and not st.value.keywords:
+                if st.value.func.attr == "append":
+                    add = ast.List(elts=[st.value.args[0]], ctx=ast.Load())
+                elif st.value.func.attr == "extend":
+                    add = st.value.args[0]
+            elif isinstance(st, ast.AugAssign) and isinstance(st.target, ast.Name) and st.target.id == name and isinstance(st.op, ast.Add):
+                add = st.value
+            if add is not None:
+                value = ast.BinOp(left=value, op=ast.Add(), right=add)
+                allowed.add(st)
+        # no other mutation of the name before the use, nor inside a loop around the use
+        loops = [o for (_t, _i, o) in self.enclosing_loops(use) if isinstance(o, (ast.For, ast.While))]
+        for node in ast.walk(self.fi.node):
+            mut = None
+            if isinstance(node, ast.Call) and isinstance(node.func, ast.Attribute) and isinstance(node.func.value, ast.Name) \
+                    and node.func.value.id == name and node.func.attr in MUTATORS:
+                mut = node
+            elif isinstance(node, ast.AugAssign) and isinstance(node.target, ast.Name) and node.target.id == name:
+                mut = node
+            elif isinstance(node, (ast.Assign, ast.Delete)) and any(isinstance(t, ast.Subscript) and isinstance(t.value, ast.Name) and t.value.id == name for t in node.targets):
+                mut = node
+            if mut is None:
+                continue
+            st = self.stmt_of(mut)
+            if st in allowed:
+                continue
+            if self.order[mut] < uo or any(self._within(mut, o) for o in loops):
+                return None
+        return ast.fix_missing_locations(ast.copy_location(value, d0.value)) if value is not d0.value else value
+
     def _comp_scope_contains(self, gen, use):
         comp = self.parent.get(gen)
         return comp is not None and self._within(use, comp) and not self._within(use, comp.generators[0].iter)
@@ -326,6 +434,19 @@ _BIN = {ast.FloorDiv: "//", ast.Mod: "%", ast.MatMult: "@", ast.BitOr: "|", ast.
         ast.BitXor: "^", ast.LShift: "<<", ast.RShift: ">>"}
 
 
+def _is_access_path(v):
+    """a name / attribute chain, or integer index arithmetic (+ - * //) over such and constants"""
+    if isinstance(v, ast.BinOp) and isinstance(v.op, (ast.Add, ast.Sub, ast.Mult, ast.FloorDiv)):
+        return _is_access_path(v.left) and _is_access_path(v.right)
+    if isinstance(v, ast.UnaryOp) and isinstance(v.op, ast.USub):
+        return _is_access_path(v.operand)
+    if isinstance(v, ast.Constant) and isinstance(v.value, int):
+        return True
+    while isinstance(v, ast.Attribute):
+        v = v.value
+    return isinstance(v, ast.Name)
+
+
 class Norm:
     """Expression -> Poly over canonical atoms.
 
@@ -333,7 +454,8 @@ class Norm:
     bind  : {name: Poly} explicit bindings that override everything (loop-variable renaming etc.)
     """
 
-    def __init__(self, scope=None, bind=None, expand=True, max_depth=150, no_expand=()):
+    def __init__(self, scope=None, bind=None, expand=True, max_depth=150, no_expand=(), alias_only=False):
+        self.alias_only = alias_only   # expand a local only when its definition is a pure access path (name / attribute chain)
         self.scope = scope
         self.bind = dict(bind or {})
         self.expand = expand and scope is not None
@@ -393,6 +515,8 @@ class Norm:
             return b if isinstance(b, Poly) else Poly.const(b)
         if self.expand and n.id not in self.no_expand and isinstance(n.ctx, ast.Load):
             v = self.scope.reaching(n.id, n)
+            if v is not None and self.alias_only and not _is_access_path(v):
+                v = None
             if v is not None and id(v) not in self._stack:
                 self._stack.append(id(v))
                 try:
@@ -577,6 +701,66 @@ class Norm:
 
     def _n_NamedExpr(self, n, d):
         return self._p(n.value, d)
+
+
+def value_cases(scope, name, key=None, within=None):
+    """[(conditions, leaf expression)] of the plain assignments to a local name: enclosing if-guards of each
+    assignment followed by the tests of nested conditional expressions, conditions as (text, polarity)."""
+    key = key or (lambda t: ast.unparse(t))
+    out = []
+
+    def flat(v, conds):
+        if isinstance(v, ast.IfExp):
+            flat(v.body, conds + [(key(v.test), True)])
+            flat(v.orelse, conds + [(key(v.test), False)])
+        else:
+            out.append((conds, v))
+    for d in scope.defs.get(name, []):
+        if d.kind == "assign" and (within is None or scope.within(d.stmt, within)):
+            flat(d.value, [(key(t), p) for t, p in scope.guards(d.stmt)])
+    return out
+
+
+def list_events(scope, name, key=None):
+    """How a local list is built, in program order: [(kind, element keys or expression key, guards)] with kind
+    'set' (plain assignment), 'prepend' (L = [a]+L / L.insert(0, a)), 'append' (L = L+[b] / L += [b] / L.append(b) / L.extend([b])),
+    'extend' (L.extend(E) / L += E / L = L + E for a non-display E), 'other'."""
+    key = key or (lambda t: ast.unparse(t))
+    ev = []
+
+    def elems(v):
+        return [key(e) for e in v.elts] if isinstance(v, ast.List) else None
+    for node in ast.walk(scope.fi.node):
+        if scope._inside_nested(node):
+            continue
+        g = None
+        if isinstance(node, ast.Assign) and len(node.targets) == 1 and isinstance(node.targets[0], ast.Name) and node.targets[0].id == name:
+            v = node.value
+            g = [(ast.unparse(t), p) for t, p in scope.guards(node)]
+            if isinstance(v, ast.BinOp) and isinstance(v.op, ast.Add) and isinstance(v.right, ast.Name) and v.right.id == name and elems(v.left) is not None:
+                ev.append((scope.order[node], "prepend", elems(v.left), g))
+            elif isinstance(v, ast.BinOp) and isinstance(v.op, ast.Add) and isinstance(v.left, ast.Name) and v.left.id == name:
+                ev.append((scope.order[node], "append" if elems(v.right) is not None else "extend", elems(v.right) if elems(v.right) is not None else key(v.right), g))
+            else:
+                ev.append((scope.order[node], "set", key(v), g))
+        elif isinstance(node, ast.AugAssign) and isinstance(node.target, ast.Name) and node.target.id == name and isinstance(node.op, ast.Add):
+            g = [(ast.unparse(t), p) for t, p in scope.guards(node)]
+            v = node.value
+            ev.append((scope.order[node], "append" if elems(v) is not None else "extend", elems(v) if elems(v) is not None else key(v), g))
+        elif isinstance(node, ast.Call) and isinstance(node.func, ast.Attribute) and isinstance(node.func.value, ast.Name) and node.func.value.id == name \
+                and node.func.attr in MUTATORS:
+            g = [(ast.unparse(t), p) for t, p in scope.guards(node)]
+            a = node.args
+            if node.func.attr == "append" and len(a) == 1:
+                ev.append((scope.order[node], "append", [key(a[0])], g))
+            elif node.func.attr == "extend" and len(a) == 1:
+                ev.append((scope.order[node], "append" if elems(a[0]) is not None else "extend", elems(a[0]) if elems(a[0]) is not None else key(a[0]), g))
+            elif node.func.attr == "insert" and len(a) == 2 and isinstance(a[0], ast.Constant) and a[0].value == 0:
+                ev.append((scope.order[node], "prepend", [key(a[1])], g))
+            else:
+                ev.append((scope.order[node], "other", ast.unparse(node), g))
+    ev.sort(key=lambda e: e[0])
+    return [(k, v, g) for _, k, v, g in ev]
 
 
 def parse_expr(text):
